@@ -12,7 +12,9 @@ for n in "$@"; do
   d="$here/seeded/$n"
   wt=/tmp/rs/$n
   git -C /repo worktree add -q --detach "$wt" HEAD 2>/dev/null || { echo "$n WORKTREE-FAILED"; continue; }
-  if ! git -C "$wt" apply "$d/patch.diff" 2>/dev/null; then echo "$n NOAPPLY"; git -C /repo worktree remove --force "$wt"; continue; fi
+  if ! git -C "$wt" apply "$d/patch.diff" 2>/dev/null; then
+    if git -C "$wt" apply --3way "$d/patch.diff" >/dev/null 2>&1; then git -C "$wt" reset -q; else echo "$n NOAPPLY"; git -C /repo worktree remove --force "$wt"; continue; fi
+  fi
   res=""
   for c in "$d"/check_C??.txt; do
     p=$(basename "$c" .txt | cut -d_ -f2)
